@@ -61,8 +61,8 @@ theorem forestGood_append {cfg : Cfg} : ∀ (a b : List Node), ForestGood cfg a 
 
 mutual
   /-- input leaves: plain (non-Markup) text, comments, the markers of CDATA sections (in any
-      arrangement: unclosed, stray, around text that holds `]]>`), processing instructions that
-      hold a `>` — everything but the text is dropped by the filter -/
+      arrangement: unclosed, stray, around text that holds `]]>`), processing instructions and
+      DOCTYPE declarations that hold a `>` — everything but the text is dropped by the filter -/
   def plainTree : Node → Bool
     | .elem _ _ ks => plainForest ks
     | .leaf (.text _ f) => !f
@@ -70,6 +70,7 @@ mutual
     | .leaf .startCdata => true
     | .leaf .endCdata => true
     | .leaf (.pi t d) => List.contains t '>' || List.contains d '>'
+    | .leaf (.doctype n p s) => dtHasGt n p s
     | .leaf _ => false
   def plainForest : List Node → Bool
     | [] => true
@@ -128,7 +129,10 @@ mutual
         have hgt : (List.contains t '>' || List.contains d '>') = true := by simpa [plainTree] using hpl
         simp only [prune, hgt, ↓reduceIte] at h
         simp at h; subst h; trivial
-      | doctype _ _ _ => simp [plainTree] at hpl
+      | doctype n p s =>
+        have hgt : dtHasGt n p s = true := by simpa [plainTree] using hpl
+        simp only [prune, hgt, ↓reduceIte] at h
+        simp at h; subst h; trivial
       | xmlDecl _ _ _ => simp [plainTree] at hpl
       | startNs _ _ => simp [plainTree] at hpl
       | endNs _ => simp [plainTree] at hpl
